@@ -24,7 +24,6 @@ SOFTWARE.
 Representation of the Einsum equation
 """
 from collections import Counter
-from itertools import chain
 
 from lark.lexer import Token
 from lark.tree import Tree
@@ -232,9 +231,9 @@ class Equation:
 
         Note: returns the output ranks first
         """
-        term_iter = chain(
-            self.equation.find_data("times"),
-            self.equation.find_data("take"))
+        # Visit the terms in the order they are written
+        term_iter = (term for term in self.equation.iter_subtrees_topdown()
+                     if term.data in ("times", "take"))
 
         # Get the ranks in a term of inputs
         term_ranks = Equation.__get_term_ranks(next(term_iter))
